@@ -4092,6 +4092,8 @@ class Wallet(object):
             transaction.fee = int(amount_total_input - amount_total_output)
         else:
             transaction.change = int(amount_total_input - (amount_total_output + transaction.fee))
+            if fee is not None and transaction.change < 0:
+                raise WalletError("Total amount of outputs is greater then total amount of inputs")
 
         # Skip change if amount is smaller than the dust limit or estimated fee
         if (fee_per_output and transaction.change < fee_per_output) or transaction.change <= transaction.network.dust_amount:
